@@ -127,10 +127,18 @@ def run(ctx):
                 ctx.ob('WIRE', '%s/%s' % (name, kind), ok, loc_,
                        'arm {%s} of %s reads %s; spec shape for %s is one of %s' % (arm, name, sorted(wire, key=str), kind, alts))
                 # value shape
-                badv = [v[0][1] for v in visits if v[0][1] not in VISITS.get(kind, set())]
+                allowed_v = set(VISITS.get(kind, set()))
+                # hint-specific: raw indices are only presented where the hint asks for a number
+                if kind == 'Enum' and name != 'deserialize_u64':
+                    allowed_v.discard('u64')
+                if kind in ('Int', 'Long') and name != 'deserialize_identifier':
+                    allowed_v.discard('u64')
+                if not ignored:
+                    allowed_v.discard('unit') if kind != 'Null' else None
+                badv = [v[0][1] for v in visits if v[0][1] not in allowed_v]
                 if visits:
                     ctx.ob('WIRE', '%s/%s/visit' % (name, kind), not badv, loc_,
-                           'visitor methods %s for %s (allowed %s)' % (sorted({v[0][1] for v in visits}), kind, sorted(VISITS.get(kind, set()))))
+                           'visitor methods %s for %s under %s (allowed %s)' % (sorted({v[0][1] for v in visits}), kind, name, sorted(allowed_v)))
                 # PROV: scalar handed to the visitor is exactly what was read
                 for tok, tb, tbb, t in visits:
                     if tok[1] in ('i32', 'i64', 'u64', 'f32', 'f64') and tb is b:
@@ -169,6 +177,11 @@ def run(ctx):
     lengths_rule(ctx)
     bounds_rule(ctx)
     blocks_rule(ctx)
+    # premature end of input on the reader path: exact reads with propagated errors (shared with C11)
+    from .c11 import slice_rule, varint_rule, fixedbuf_rule
+    slice_rule(ctx)
+    varint_rule(ctx)
+    fixedbuf_rule(ctx)
 
 
 def same_node_delegation(b, r, toks):
